@@ -54,6 +54,12 @@ struct Val {
     std::u16string u16;
     std::u8string u8;
     ST::string st;
+    // backing storage of the string_view arguments: the text followed by "!!"
+    std::string utf8_b;
+    std::wstring w_b;
+    std::u16string u16_b;
+    std::u32string cps_b;
+    std::u8string u8_b;
 };
 
 static bool is_int_type(int t) { return t <= T_CHAR8; }
@@ -111,19 +117,20 @@ static ST::string call1(const char *f, const Val &v)
     case T_CSTR: return ST::format(f, v.utf8.c_str());
     case T_STSTRING: return ST::format(f, v.st);
     case T_STDSTRING: return ST::format(f, v.utf8);
-    case T_SV: return ST::format(f, std::string_view(v.utf8));
+    // views are windows into longer storage ("!!" follows): their size is the only bound
+    case T_SV: return ST::format(f, std::string_view(v.utf8_b.data(), v.utf8.size()));
     case T_WCSTR: return ST::format(f, v.w.c_str());
     case T_WSTRING: return ST::format(f, v.w);
-    case T_WSV: return ST::format(f, std::wstring_view(v.w));
+    case T_WSV: return ST::format(f, std::wstring_view(v.w_b.data(), v.w.size()));
     case T_U16CSTR: return ST::format(f, v.u16.c_str());
     case T_U16STRING: return ST::format(f, v.u16);
-    case T_U16SV: return ST::format(f, std::u16string_view(v.u16));
+    case T_U16SV: return ST::format(f, std::u16string_view(v.u16_b.data(), v.u16.size()));
     case T_U32CSTR: return ST::format(f, v.cps.c_str());
     case T_U32STRING: return ST::format(f, v.cps);
-    case T_U32SV: return ST::format(f, std::u32string_view(v.cps));
+    case T_U32SV: return ST::format(f, std::u32string_view(v.cps_b.data(), v.cps.size()));
     case T_U8CSTR: return ST::format(f, v.u8.c_str());
     case T_U8STRING: return ST::format(f, v.u8);
-    default: return ST::format(f, std::u8string_view(v.u8));
+    default: return ST::format(f, std::u8string_view(v.u8_b.data(), v.u8.size()));
     }
 }
 
@@ -164,6 +171,11 @@ static Val text_val(int type, const std::u32string &cps)
     }
     v.u8.assign((const char8_t *)v.utf8.data(), v.utf8.size());
     v.st = ST::string::from_validated(v.utf8.data(), v.utf8.size());
+    v.utf8_b = v.utf8 + "!!";
+    v.w_b = v.w + L"!!";
+    v.u16_b = v.u16 + u"!!";
+    v.cps_b = v.cps + U"!!";
+    v.u8_b = v.u8 + u8"!!";
     return v;
 }
 
@@ -478,9 +490,18 @@ static std::string failing_signature(const Val &v, Opt q, Eval &e)
     return strf("field:%s:%s:%s", fam, what.c_str(), opts.c_str());
 }
 
+static void heap_events(Ctx &c, const std::string &what)
+{
+    if (vf::events_total()) {
+        c.fail(std::string("heap:") + vf::g_alloc.first_event, "allocator event while formatting " + what);
+        vf::events_reset();
+    }
+}
+
 static void run_single(Ctx &c, const Val &v, const Opt &q)
 {
     Eval e = eval_single(v, q, true);
+    heap_events(c, e.f);
     switch (e.verdict) {
     case V_SKIP: vf::count_dyn(std::string("out:skipped(") + e.skip + ")"); return;
     case V_EQUAL:
@@ -918,6 +939,7 @@ static void build(vf::Plan &plan, const vf::Opts &o)
                        ST::string got;
                        vf::Outcome oc = vf::guard([&] { got = call1(fp, v); });
                        VF_COUNT("ops");
+                       heap_events(c, f);
                        const char *fam = is_int_type(v.type) ? "int" : v.type == T_BOOL ? "bool" : "text";
                        if (!oc.ok()) {
                            c.fail(strf("field:width-sweep:%s:unexpected-%s", fam, out_slug(oc).c_str()),
